@@ -544,7 +544,7 @@ namespace occa {
         leftAssociative,  // 13
         leftAssociative,  // 14
         leftAssociative,  // 15
-        leftAssociative, // 16 [?:]
+        rightAssociative, // 16 [?:]
         rightAssociative, // 17 [assignment, throw]
         leftAssociative  // 18 [,]
       };
